@@ -386,6 +386,11 @@ func c09CheckFormat(c *Ctx, src []byte, path, origin string, mode int, report bo
 			cls = "threads-rounding" // nothing but `threads = ...` lines differ
 		} else if cls == "other" && c09NoBlank(out1) == c09NoBlank(out2) {
 			cls = "blank-lines-only"
+			if strictComments {
+				// inside the property's domain (every comment precedes an element) the blank-line
+				// oscillation F27 is repaired (1938fea): there it is a violation, not the known finding
+				cls = "blank-lines-only:strict-positions"
+			}
 		} else if cls == "other" && c09BindListHasComments(ast0) {
 			cls = "comment-before-open-paren"
 		} else if cls == "other" && !strictComments && len(c09Comments(src)) > 0 {
